@@ -424,6 +424,40 @@ theorem withdraw_passthrough (ps : List Pol) (d : RT) (r : Route) (o : Opts) (h 
     applyPolicy ps d r o = some r := by
   simp [applyPolicy, h]
 
+
+/-! ## conditions that depend on the route's source -/
+
+/-- **route_type_documented**: the route-type condition classifies by the SESSION the route was learned
+    on and by nothing else (a `Route` carries no confederation flag, so the classification cannot depend
+    on one): local = originated here (no source address); internal = learned from a peer whose AS is the
+    local AS of that session (iBGP, also inside a confederation member AS, RR clients); external = learned
+    from a peer in another AS — a confederation eBGP session to another member AS and a route-server
+    client included. -/
+theorem route_type_documented (r : Route) :
+    (evalRouteType 3 r = true ↔ r.srcAddr = none) ∧
+    (evalRouteType 1 r = true ↔ r.srcAddr ≠ none ∧ r.srcAS = r.srcLocalAS ∧ r.srcAS ≠ 0) ∧
+    (evalRouteType 2 r = true ↔ r.srcAddr ≠ none ∧ ¬ (r.srcAS = r.srcLocalAS ∧ r.srcAS ≠ 0)) := by
+  unfold evalRouteType Route.isLocal Route.isIBGP
+  cases r.srcAddr with
+  | none => simp
+  | some a =>
+    simp
+    by_cases h : r.srcAS = r.srcLocalAS <;> simp [h]
+
+/-- every route has exactly one route type -/
+theorem route_type_partition (r : Route) :
+    (evalRouteType 3 r || evalRouteType 1 r || evalRouteType 2 r) = true ∧
+    (evalRouteType 3 r && evalRouteType 1 r) = false ∧
+    (evalRouteType 3 r && evalRouteType 2 r) = false ∧
+    (evalRouteType 1 r && evalRouteType 2 r) = false := by
+  unfold evalRouteType Route.isLocal Route.isIBGP
+  cases r.srcAddr <;> cases h : (r.srcAS == r.srcLocalAS && r.srcAS != 0) <;> simp [h]
+
+/-- a route learned over a confederation eBGP session (peer in member AS 65101, local member AS 65000) is external -/
+example : evalRouteType 2 { (default : Route) with srcAddr := some ⟨false, 167772673⟩, srcAS := 65101, srcLocalAS := 65000 } = true ∧
+    evalRouteType 1 { (default : Route) with srcAddr := some ⟨false, 167772673⟩, srcAS := 65101, srcLocalAS := 65000 } = false := by
+  decide
+
 /-! ## never mutates shared routes -/
 
 open PolicyHeap in
